@@ -56,31 +56,8 @@ const whileFuel = 80
 // functions that are NOT translated, with the reason (they keep their hand-written models)
 var skip = map[string]string{
 	"utils.NewIntFromString":           "decimal parsing (math/big SetString): trusted",
-	"utils.Hex.MarshalText":            "encoding/hex: hand-written codec model (C15)",
-	"utils.Hex.String":                 "encoding/hex",
-	"utils.HexEncode":                  "encoding/hex, fmt",
-	"utils.HexDecode":                  "encoding/hex, strings",
-	"utils.HexDecodeInto":              "encoding/hex, bytes",
 	"babyjub.init":                     "constants: translator T1",
-	"babyjub.DecompressSig":            "text codec (C15 model)",
 	"babyjub.NewRandPrivKey":           "crypto/rand",
-	"babyjub.PublicKey.MarshalText":    "text codec (C15 model)",
-	"babyjub.PublicKey.String":         "text codec",
-	"babyjub.PublicKey.UnmarshalText":  "text codec",
-	"babyjub.PublicKeyComp.MarshalText": "text codec",
-	"babyjub.PublicKeyComp.String":     "text codec",
-	"babyjub.PublicKeyComp.UnmarshalText": "text codec",
-	"babyjub.SignatureComp.MarshalText": "text codec",
-	"babyjub.SignatureComp.String":     "text codec",
-	"babyjub.SignatureComp.UnmarshalText": "text codec",
-	"babyjub.SignatureComp.Scan":       "interface{} source (C15 model)",
-	"babyjub.SignatureComp.Value":      "database/sql/driver",
-	"babyjub.Signature.Scan":           "interface{} source",
-	"babyjub.Signature.Value":          "database/sql/driver",
-	"babyjub.PublicKey.Scan":           "interface{} source",
-	"babyjub.PublicKey.Value":          "database/sql/driver",
-	"babyjub.PublicKeyComp.Scan":       "interface{} source",
-	"babyjub.PublicKeyComp.Value":      "database/sql/driver",
 	"poseidon.init":                    "constants: translator T1",
 	"goldenposeidon.init":              "constants: translator T1",
 }
@@ -192,6 +169,48 @@ func isError(t types.Type) bool {
 	n, ok := t.(*types.Named)
 	return ok && n.Obj().Pkg() == nil && n.Obj().Name() == "error"
 }
+// isAny: `interface{}` and database/sql/driver.Value — dynamically typed values (I3.Go.Any)
+func isAny(t types.Type) bool {
+	t = types.Unalias(t)
+	if isNamed(t, "database/sql/driver", "Value") {
+		return true
+	}
+	if _, isNamedT := t.(*types.Named); isNamedT {
+		return false
+	}
+	it, ok := t.Underlying().(*types.Interface)
+	return ok && it.NumMethods() == 0
+}
+
+// toAny wraps an expression of static type `from` that is used where an interface value is expected
+func (t *tr) toAny(e ast.Expr, v string) string {
+	from := t.typeOf(e)
+	if t.isNil(e) {
+		return "I3.Go.Any.nil"
+	}
+	if isAny(from) {
+		return v
+	}
+	switch leanType(from) {
+	case "(List UInt8)":
+		if _, isArr := types.Unalias(from).Underlying().(*types.Array); isArr {
+			t.fail(e, "array value converted to an interface")
+		}
+		return "(I3.Go.Any.bytes " + v + ")"
+	case "String":
+		return "(I3.Go.Any.string " + v + ")"
+	case "Int":
+		if isBig(from) {
+			break
+		}
+		return "(I3.Go.Any.int64 " + v + ")"
+	case "Bool":
+		return "(I3.Go.Any.bool " + v + ")"
+	}
+	t.fail(e, "conversion of %s to an interface value", from)
+	return ""
+}
+
 func modulusOf(t types.Type) string {
 	if isFFG(t) {
 		return "I3.Gen.ffg_modulus"
@@ -213,6 +232,9 @@ func leanType(t types.Type) string {
 	}
 	if isNamed(t, "hash", "Hash") {
 		return "I3.Go.Ext.Hasher"
+	}
+	if isAny(t) {
+		return "I3.Go.Any"
 	}
 	switch tt := t.(type) {
 	case *types.Pointer:
@@ -259,6 +281,52 @@ func leanType(t types.Type) string {
 }
 
 type fail struct{ msg string }
+
+func containsArray(t types.Type) bool {
+	switch tt := types.Unalias(t).(type) {
+	case *types.Named:
+		if isBig(tt) || isElem(tt) {
+			return false
+		}
+		return containsArray(tt.Underlying())
+	case *types.Array:
+		return true
+	case *types.Struct:
+		for i := 0; i < tt.NumFields(); i++ {
+			if containsArray(tt.Field(i).Type()) {
+				return true
+			}
+		}
+	}
+	return false
+}
+
+// zeroValue: the Go zero value of a type in its Lean representation (arrays are full-length lists of zeros)
+func zeroValue(t types.Type) string {
+	t = types.Unalias(t)
+	if isBig(t) || isElem(t) || isError(t) {
+		return "(default : " + leanType(t) + ")"
+	}
+	switch tt := t.(type) {
+	case *types.Named:
+		return zeroValue(tt.Underlying())
+	case *types.Array:
+		ez := zeroValue(tt.Elem())
+		if strings.HasPrefix(ez, "(default : ") {
+			ez = "default"
+		}
+		return fmt.Sprintf("(List.replicate %d %s : %s)", tt.Len(), ez, leanType(t))
+	case *types.Struct:
+		if tt.NumFields() > 1 && containsArray(tt) {
+			var fs []string
+			for i := 0; i < tt.NumFields(); i++ {
+				fs = append(fs, zeroValue(tt.Field(i).Type()))
+			}
+			return "((" + strings.Join(fs, ", ") + ") : " + leanType(t) + ")"
+		}
+	}
+	return "(default : " + leanType(t) + ")"
+}
 
 func structOf(t types.Type) *types.Struct {
 	t = types.Unalias(t)
@@ -779,7 +847,7 @@ func (t *tr) composite(x *ast.CompositeLit) string {
 		return "[" + strings.Join(t.elts(x.Elts), ", ") + "]"
 	case *types.Array:
 		if len(x.Elts) == 0 {
-			return fmt.Sprintf("(List.replicate %d default : %s)", u.Len(), leanType(ty))
+			return zeroValue(ty)
 		}
 		if int64(len(x.Elts)) != u.Len() {
 			t.fail(x, "partial array literal")
@@ -1048,6 +1116,43 @@ func (t *tr) call(c *ast.CallExpr, want int) []string {
 		return []string{"I3.Go.Ext.Hasher.newKeccak256"}
 	case "github.com/dchest/blake512.New":
 		return []string{"I3.Go.Ext.Hasher.newBlake512"}
+	case "encoding/hex.EncodeToString":
+		return []string{"(I3.Go.Ext.hexEncodeToString " + t.expr(c.Args[0]) + ")"}
+	case "encoding/hex.DecodeString":
+		r, e := t.fresh("r"), t.fresh("r")
+		t.pre = append(t.pre, "let ("+r+", "+e+") := I3.Go.Ext.hexDecodeString "+t.expr(c.Args[0]))
+		return []string{r, e}
+	case "encoding/hex.Decode":
+		// writes dst
+		n, e, d := t.fresh("r"), t.fresh("r"), t.fresh("m")
+		dst := t.expr(c.Args[0])
+		t.pre = append(t.pre, "let ("+n+", "+e+", "+d+") := I3.Go.Ext.hexDecode "+dst+" "+t.expr(c.Args[1]))
+		if t.isLvalue(c.Args[0]) {
+			t.assignTo(c.Args[0], d)
+		}
+		return []string{n, e}
+	case "strings.TrimPrefix":
+		return []string{"(I3.Go.Ext.stringsTrimPrefix " + t.expr(c.Args[0]) + " " + t.expr(c.Args[1]) + ")"}
+	case "bytes.HasPrefix":
+		return []string{"(I3.Go.Ext.bytesHasPrefix " + t.expr(c.Args[0]) + " " + t.expr(c.Args[1]) + ")"}
+	case "fmt.Sprintf":
+		// only formats made of literal text and %s applied to strings
+		tv := t.info.Types[c.Args[0]]
+		if tv.Value == nil || tv.Value.Kind() != constant.String {
+			t.fail(c, "format is not a constant")
+		}
+		parts := strings.Split(constant.StringVal(tv.Value), "%s")
+		if len(parts) != len(c.Args) || strings.Contains(strings.Join(parts, ""), "%") {
+			t.fail(c, "unsupported format string")
+		}
+		out := fmt.Sprintf("%q", parts[0])
+		for i, a := range c.Args[1:] {
+			if leanType(t.typeOf(a)) != "String" {
+				t.fail(c, "%%s applied to a non-string")
+			}
+			out += " ++ " + t.expr(a) + " ++ " + fmt.Sprintf("%q", parts[i+1])
+		}
+		return []string{"(" + out + ")"}
 	case "fmt.Errorf", "errors.New":
 		tv := t.info.Types[c.Args[0]]
 		if tv.Value == nil || tv.Value.Kind() != constant.String {
@@ -1174,7 +1279,7 @@ func (t *tr) builtin(name string, c *ast.CallExpr) string {
 	case "len":
 		return "(I3.Go.len " + t.expr(c.Args[0]) + ")"
 	case "new":
-		return "(default : " + leanType(t.typeOf(c.Args[0])) + ")"
+		return zeroValue(t.typeOf(c.Args[0]))
 	case "make":
 		ty := t.typeOf(c.Args[0])
 		if _, ok := types.Unalias(ty).Underlying().(*types.Slice); !ok {
